@@ -392,7 +392,15 @@ theorem popCol_sublist (k : ν) (cols : List (Col ι ν)) : (popCol k cols).2.Su
 theorem removed_column (cols : List (Col ι ν)) (key : Key ν) (os : List (Out ι ν)) :
     removed (column cols key :: os) = removed os := by
   cases key with
-  | idx i => cases h : pyIndex cols i <;> simp [column, h, removed]
+  | idx i => cases h : pyIndex cols i <;> simp [column, h, removed, Out.ofIndex]
+  | flag b => cases h : pyIndex cols (boolIndex b) <;> simp [column, h, removed, Out.ofIndex]
   | name k => simp [column, removed]
+
+theorem ofIndex_some (c : Col ι ν) : Out.ofIndex (some c) = .col (some c) := rfl
+
+theorem ofIndex_none : (Out.ofIndex none : Out ι ν) = .indexError := rfl
+
+theorem column_flag (cols : List (Col ι ν)) (b : Bool) :
+    column cols (.flag b) = column cols (.idx (boolIndex b)) := rfl
 
 end SchemaOps
